@@ -693,7 +693,9 @@ fn run_legacy(ctx: &Ctx) {
     }
     }
     // Big5 record (3,4): format 4 over 16-bit Big5 codes mapping code c -> (c % 60000) + 1
-    let segs = [Seg4::Delta { start: 0x20, end: 0x7E, delta: 1 }, Seg4::Delta { start: 0xA140, end: 0xF9FE, delta: 0x100 }];
+    // (the two-byte segment spans every lead byte 0x81..=0xFE: original Big5 0xA1..0xF9, the HKSCS / extension rows below
+    // and above it - which is where the codes of supplementary-plane ideographs live)
+    let segs = [Seg4::Delta { start: 0x20, end: 0x7E, delta: 1 }, Seg4::Delta { start: 0x8140, end: 0xFEFE, delta: 0x100 }];
     let (sub, model) = cmapenc::fmt4(&segs, Term4::Standard);
     let cmap = tables::cmap_table(&[(3, 4, sub)]);
     let font = tables::minimal_font(300, &[], &[(tag(b"cmap"), cmap)]);
@@ -712,8 +714,8 @@ fn run_legacy(ctx: &Ctx) {
         Ok(Ok(v)) => {
             let mut mapped = 0u64;
             for (ch, g) in v {
-                // the code of a char is whatever decodes back to it (inverse law checked separately)
-                let code = allsorts::big5::unicode_to_big5(ch);
+                // the code of a char comes from the independent reference (util::big5ref), not from allsorts::big5
+                let code = crate::util::big5ref::encode(ch);
                 let want = code.map(|c| model.get(&(c as u32)).copied().unwrap_or(0)).unwrap_or(0);
                 if g != want {
                     ctx.violation("C06:big5:font-lookup", || json!({"char": ch as u32, "big5": code, "expected": want, "got": g}));
@@ -772,12 +774,43 @@ fn run_inverse_laws(ctx: &Ctx) {
     for (c, b, back) in bad {
         ctx.violation("C06:big5:encode-then-decode-is-not-identity", || json!({"char": c, "code": b, "back": back.map(|x| x as u32)}));
     }
+    // both conversions against the independent reference (util::big5ref: the WHATWG index through encoding_rs' whole-string
+    // API): every character has exactly the reference code or none, every 16 bit code decodes to the reference character
+    // (for the four codes that stand for two characters the first one or nothing is accepted)
+    let bad: Vec<(u32, Option<u16>, Option<u16>)> = (0u32..0x110000)
+        .into_par_iter()
+        .filter_map(char::from_u32)
+        .filter_map(|c| {
+            let (want, got) = (crate::util::big5ref::encode(c), unicode_to_big5(c));
+            (want != got).then(|| (c as u32, want, got))
+        })
+        .collect();
+    for (c, want, got) in bad.into_iter().take(8) {
+        ctx.violation("C06:big5:unicode_to_big5-differs-from-the-big5-index", || json!({"char": c, "expected": want, "got": got}));
+    }
+    let bad: Vec<(u16, Option<Vec<char>>, Option<char>)> = (0u32..0x10000)
+        .into_par_iter()
+        .filter_map(|b| {
+            let b = b as u16;
+            let (want, got) = (crate::util::big5ref::decode(b), big5_to_unicode(b));
+            let ok = match (&want, got) {
+                (None, None) => true,
+                (Some(w), Some(g)) => w.first() == Some(&g),
+                (Some(w), None) => w.len() > 1,
+                (None, Some(_)) => false,
+            };
+            (!ok).then(|| (b, want, got))
+        })
+        .collect();
+    for (b, want, got) in bad.into_iter().take(8) {
+        ctx.violation("C06:big5:big5_to_unicode-differs-from-the-big5-index", || json!({"code": b, "expected": want.map(|w| w.iter().map(|c| *c as u32).collect::<Vec<_>>()), "got": got.map(|c| c as u32)}));
+    }
     // (code -> char -> code is NOT demanded: the WHATWG Big5 index decodes HKSCS extension codes that its encoder never emits)
     let n_dec = (0u32..0x10000).filter(|b| big5_to_unicode(*b as u16).is_some()).count();
     ctx.set("big5_codes_that_decode", json!(n_dec));
-    ctx.evals(256 + 2 * 0x110000 + 0x10000);
-    ctx.add_states(256 + 2 * 0x110000 + 0x10000);
-    ctx.add_transitions(256 + 2 * 0x110000 + 0x10000);
+    ctx.evals(256 + 3 * 0x110000 + 2 * 0x10000);
+    ctx.add_states(256 + 3 * 0x110000 + 2 * 0x10000);
+    ctx.add_transitions(256 + 3 * 0x110000 + 2 * 0x10000);
     ctx.mark_nontrivial(H::new().str("inverse-laws").get());
 }
 
@@ -793,7 +826,7 @@ pub fn run(ctx: &Ctx) {
     ctx.assume("an Err from CmapSubtable::map_glyph is accepted as 'unmapped' (Font maps it to glyph 0)");
     ctx.assume("capability classes for record preference: full Unicode {(3,10),(0,4),(0,6)} > Unicode BMP {(3,1),(0,0..3)} > legacy {(3,0),(1,0),(3,4)}; any record of the best class present is accepted");
     ctx.assume("Mac Roman reference: Apple ROMAN.TXT where allsorts' (partial, PDF MacRomanEncoding style) decoder is defined; 0xDB may be CURRENCY SIGN or EURO SIGN; U+F0xx -> byte xx accepted for Mac-only fonts");
-    ctx.assume("Big5: only char -> code -> char is demanded (the decoder is a superset of the encoder by design of the WHATWG index)");
+    ctx.assume("Big5 reference: the WHATWG Big5 index as shipped by the encoding_rs crate, reached through its whole-string API independently of allsorts::big5 (trusted data); char -> code -> char is demanded, code -> char -> code is not (the decoder is a superset of the encoder by design of that index)");
     run_fmt4(ctx);
     run_fmt12(ctx);
     run_fmt6_10_0(ctx);
